@@ -668,7 +668,11 @@ def run_threads(ctx: Ctx, cfg: dict, trace: bool = False) -> dict:
         out["ops"] = [o.doc() for o in ops]  # before the deterministic continuation
         out["parked"] = [(t.name, t.parked_kind) for t in sched.threads if not t.done]
         out["quiescent"] = snap()
-        out["thread_exc"] = [(t.name, type(t.exc).__name__, str(t.exc)[:200]) for t in sched.threads if t.exc is not None]
+        # a NetworkServerThread whose serve_forever is refused dies with that exception (threading.excepthook in real
+        # life): that is the documented behaviour of the refused call, not a fault of its own
+        out["thread_exc"] = [(t.name, type(t.exc).__name__, str(t.exc)[:200]) for t in sched.threads if t.exc is not None
+                             and not (t.index >= len(ops) and isinstance(t.exc, (ServerClosedError, ServerAlreadyRunning)))]
+        out["helper_thread_exc"] = [type(t.exc).__name__ for t in sched.threads[len(ops):] if t.exc is not None]
         out["steps"] = sched.steps
         out["preemptions"] = sched.preemptions
         out["free_switches"] = sched.free_switches
